@@ -40,7 +40,7 @@ def prog_kinds(prog):
 PROPS = {
     "C01": dict(
         gens=[tlc("c01"), rand("stream_any", 600, "quick"), rand("stream_unsorted", 400, "quick"),
-              rand("stream_any", 30000, "thorough"), rand("stream_unsorted", 20000, "thorough")],
+              rand("stream_any", 30000, "thorough"), rand("stream_unsorted", 20000, "thorough"), rand("replace_hist", 400, "quick"), rand("replace_hist", 20000, "thorough")],
         tv_props=["C01", "DRIFT"],
         mc=[dict(module="MC_LeafM.tla", cfg="MC_LeafM", tier="quick"),
             dict(module="MC_LeafM.tla", cfg="MC_LeafM_deep", tier="thorough", timeout=1800)],
